@@ -49,13 +49,13 @@ CHECKS["C06"] = dict(
     technique='history + executable model: reference cursor vs real parser, exhaustive product-state execution on small trees and random walks, ASan+UBSan',
     level_note=LVL_NOTE,
     title="Cursor navigation (next/enter/skip/leave) matches the document structure",
-    rule="explicit-state part: every container-rooted tree with <= N nodes over {int,string,object,array} (N=5 quick, 6 thorough); from every reachable product state "
+    rule="explicit-state part: every container-rooted tree with <= N nodes over {int,string,object,array} (N=6 quick: 28 506 trees, N=8 thorough: 2 450 522 trees); from every reachable product state "
          "(reference cursor x bytes of the real parser struct and state array) every protocol-following call is executed on a restored copy and compared, successors "
          "deduplicated by hash, so call sequences of any length on those trees are covered. random part: one case = random valid document x random protocol-following walk "
          "(next, go_into, leave, get_raw, lookups of present names). non-trivial = walk of >= 3 calls on a document with >= 2 nodes; distinct = hash(document, call list) / tree code",
     exhaustive_note="all trees with <= N nodes x all reachable (cursor, parser memory) states x all protocol-following calls",
     assumptions=["the reference cursor in harness/vh.c (vc_*) is the sequential specification", "64-bit state hashes: a collision could hide a state (probability < 1e-9 per run)"],
-    jobs=[dict(name="c06x", src=WALK, build="gasan", mode="c06x", cases=(3290, 28506), opt=("5", "6"), require=["product_states", "transitions"]),
+    jobs=[dict(name="c06x", src=WALK, build="gasan", mode="c06x", cases=(28506, 2450522), opt=("6", "8"), require=["product_states", "transitions"]),
           dict(name="c06r", src=WALK, build="gasan", mode="c06r", cases=(200000, 5000000), require=["calls"])],
 )
 
@@ -70,7 +70,7 @@ CHECKS["C07"] = dict(
          "non-trivial = walk of >= 3 calls; distinct = hash(document, call list)",
     exhaustive_note="all trees with <= N nodes x all reachable product states x the full lookup alphabet",
     assumptions=["reference cursor vc_field is the specification of a lookup", "lookups are issued only inside objects"],
-    jobs=[dict(name="c07x", src=WALK, build="gasan", mode="c07x", cases=(3290, 28506), opt=("5", "6"), require=["product_states", "lookups_found", "lookups_absent", "wrong_type_raised"]),
+    jobs=[dict(name="c07x", src=WALK, build="gasan", mode="c07x", cases=(28506, 2450522), opt=("6", "8"), require=["product_states", "lookups_found", "lookups_absent", "wrong_type_raised"]),
           dict(name="c07r", src=WALK, build="gasan", mode="c07r", cases=(200000, 5000000), require=["calls", "lookups_found", "lookups_absent"])],
 )
 
@@ -96,7 +96,7 @@ CHECKS["C11"] = dict(
          "and the element that follows. non-trivial = walk of >= 3 calls; distinct = hash(document, call list) / tree code",
     exhaustive_note="all trees with <= N nodes x all reachable product states with get_raw/to_writer in the alphabet",
     assumptions=["reference cursor + encoder spans are the specification"],
-    jobs=[dict(name="c11x", src=WALK, build="gasan", mode="c11x", cases=(3290, 28506), opt=("5", "6"), require=["product_states", "raw_spans_checked", "to_writer_checked", "raw_on_scalar"]),
+    jobs=[dict(name="c11x", src=WALK, build="gasan", mode="c11x", cases=(28506, 2450522), opt=("6", "8"), require=["product_states", "raw_spans_checked", "to_writer_checked", "raw_on_scalar"]),
           dict(name="c11r", src=WALK, build="gasan", mode="c11r", cases=(200000, 5000000), require=["calls", "raw_spans_checked", "to_writer_checked"])],
 )
 
